@@ -56,8 +56,17 @@ pub fn generate(seed: u64, tier: &str, out: &mut dyn std::io::Write) {
                 cfg.crash = Some(c);
             }
         }
+        // reconfigured between requests: the earlier requests are made with a principal address that resolves (the code
+        // the threads wait in), the last one with an address at which nothing is mapped — as the fresh writer's is
+        let reconf = !bus && !grows && Rng::for_case(seed, 1909, i).chance(1, 4);
+        if reconf {
+            cfg.principal = Some(0x10);
+        }
         let k = r.range(2, 5);
         let mut w = writer_for(&t, &cfg);
+        if reconf {
+            w.set_principal_mapping_address(t.read_u64(t.threads[0].regs_addr + 88) as usize);
+        }
         let mut imgs = Vec::new();
         let mut results = Vec::new();
         // Some requests of the sequence are made to fail part-way (the destination refuses a call, or
@@ -82,6 +91,9 @@ pub fn generate(seed: u64, tier: &str, out: &mut dyn std::io::Write) {
                 if let Ok(f) = std::fs::OpenOptions::new().write(true).open(&bus_path) {
                     let _ = f.set_len(8192);
                 }
+            }
+            if j + 1 == k && reconf {
+                w.set_principal_mapping_address(0x10);
             }
             if j + 1 == k && grows {
                 if let Some(mt) = t.threads.last() {
@@ -155,8 +167,8 @@ pub fn generate(seed: u64, tier: &str, out: &mut dyn std::io::Write) {
         };
         writeln!(
             out,
-            "C19 w{}-{} kind=reuse cfg={} k={} results={} imgs={} fresh_result={} fresh={} mutated={} args={}",
-            seed, i, cfg.field(), k, results.join(","), imgs.join(","), fres, fimg, if grown { 2 } else { mutated as u8 }, sc.args.join(",")
+            "C19 w{}-{} kind=reuse cfg={} k={} results={} imgs={} fresh_result={} fresh={} mutated={} reconf={} args={}",
+            seed, i, cfg.field(), k, results.join(","), imgs.join(","), fres, fimg, if grown { 2 } else { mutated as u8 }, reconf as u8, sc.args.join(",")
         )
         .unwrap();
     }
